@@ -7,7 +7,6 @@ From TT Require Import Lib.Base Lib.Sort Model.Reactor Model.Spinner.
 
 (* one run() on the one spinner of the history *)
 Record runspec := mkRun {
-  r_other : bool;          (* a re-entrant call made by the function goes through ANOTHER Spinner on the same reactor *)
   r_clear : bool;          (* clear_junk() is called first *)
   r_pre : list nat;        (* handlers installed for SIGINT, SIGTERM, SIGCHLD before the call *)
   r_stop : option nat;     (* Some k: before the call somebody makes reactor.stop the instance-level override k
@@ -29,7 +28,9 @@ Definition wf (i : input) : Prop := Forall wf_run (i_runs i).
 (* what is seen after one run() *)
 Record robs := mkObs {
   o_res : res value exc;   (* what run() returned / the class of what it raised *)
-  o_reentry : option bool; (* Some b: the function called run() again; b = that call raised ReentryError *)
+  o_reentry : list bool;   (* one entry per call of run() made while this run was in progress (by the function
+                              itself or by one of its delayed calls, through the same or another Spinner), in order:
+                              it raised ReentryError and changed nothing *)
   o_ran : list nat;        (* the function's delayed calls that ran (tokens, sorted) *)
   o_order : list nat;      (* every delayed call that ran, in the order the reactor ran them (0 = the timeout call) *)
   o_junk : list nat;       (* get_junk() afterwards (tokens, sorted) *)
@@ -106,6 +107,11 @@ Definition perm_eqb (a b : list nat) : bool :=
   forallb (fun x => Nat.eqb (count a x) (count b x)) (a ++ b).
 Definition not_timeout_tok (t : nat) : bool := negb (Nat.eqb t tok_timeout).
 
+(* re-entrant use is refused - every time: each attempt made while the run was in progress was refused and changed
+   nothing, and every attempt the function makes itself has been seen *)
+Definition reentry_okb (f : fn) (re : list bool) : bool :=
+  forallb (fun b => b) re && Nat.leb (length (f_reenter f)) (length re).
+
 (* the spinner's own timeout call is reported as junk only when it was left pending because the reactor was
    stopped before either the Deferred or the timeout fired (a run that delivered the function's result or timed
    out leaves no junk of its own, so that the next run is not refused for it) *)
@@ -145,11 +151,11 @@ Definition run_okb (stale : list nat) (stop0 : nat) (rs : runspec) (o : robs) : 
   | _ :: _ =>   (* refuses to run: nothing happens *)
       result_eqb (o_res o) (Raised EStaleJunk) && list_eqb Nat.eqb (o_junk o) stale
       && list_eqb Nat.eqb (o_ran o) [] && list_eqb Nat.eqb (o_order o) []
-      && option_eqb Bool.eqb (o_reentry o) None
+      && list_eqb Bool.eqb (o_reentry o) []
   | [] =>
       allowed (r_timeout rs) (r_fn rs) (o_order o) (o_res o)
       && list_eqb Nat.eqb (o_ran o) (isort Nat.leb (filter not_timeout_tok (o_order o)))
-      && option_eqb Bool.eqb (o_reentry o) (if f_reenter (r_fn rs) then Some true else None)
+      && reentry_okb (r_fn rs) (o_reentry o)
       (* every leftover of the function either ran or is reported as junk, once *)
       && perm_eqb (o_ran o ++ filter not_timeout_tok (o_junk o)) (sched_tokens (r_fn rs))
       && own_junk_okb o
@@ -186,10 +192,10 @@ Definition Clean (stop0 : nat) (rs : runspec) (o : robs) : Prop :=
 Definition Run_spec (stale : list nat) (stop0 : nat) (rs : runspec) (o : robs) : Prop :=
   Clean stop0 rs o /\
   match stale with
-  | _ :: _ => o_res o = Raised EStaleJunk /\ o_junk o = stale /\ o_ran o = [] /\ o_order o = [] /\ o_reentry o = None
+  | _ :: _ => o_res o = Raised EStaleJunk /\ o_junk o = stale /\ o_ran o = [] /\ o_order o = [] /\ o_reentry o = []
   | [] => Allowed (r_timeout rs) (r_fn rs) (o_order o) (o_res o)
           /\ o_ran o = isort Nat.leb (filter not_timeout_tok (o_order o))
-          /\ o_reentry o = (if f_reenter (r_fn rs) then Some true else None)
+          /\ (forall b, In b (o_reentry o) -> b = true) /\ length (f_reenter (r_fn rs)) <= length (o_reentry o)
           /\ (forall t, count (o_ran o ++ filter not_timeout_tok (o_junk o)) t = count (sched_tokens (r_fn rs)) t)
           /\ (In tok_timeout (o_junk o) -> o_res o = Raised ENoResult)
   end.
